@@ -29,3 +29,59 @@ for cap, cap2, tier in ((1, 1, 'quick'), (2, 3, 'quick'), (4, 3, 'quick'), (5, 5
             job(id='C19.array.cap%d_%d%s.%s' % (cap, cap2, '.int' if pl else '', entry[6:]), tu='tier_a/arrays.cpp', defs=defs, entry=entry,
                 props=['C19', 'C11'], tier=t, unwind=max(cap, cap2, 4) + 2, objbits=10, carriers=DA_CARRIERS,
                 case_key='DynamicArrayT<TransitionT<%s>,%d>+=<%d>' % ('int' if pl else 'void', cap, cap2))
+
+# ------------------------------------------------------------------ C20 generators
+RNG_CARRIERS = {
+ 'proof_splitmix64': [r'SimpleRandomT<8u>::raw64'], 'proof_splitmix32': [r'SimpleRandomT<4u>::raw32'],
+ 'proof_nonzero64': [r'SimpleRandomT<8u>::uint64'], 'proof_nonzero32': [r'SimpleRandomT<4u>::uint32'],
+ 'proof_seed_float64': [r'BaseRandomT<8u>::BaseRandomT\(hfsm2::detail::SimpleRandomT', r'BaseRandomT<8u>::seed'], 'proof_seed_int64': [r'BaseRandomT<8u>::seed'],
+ 'proof_seed_float32': [r'BaseRandomT<4u>::BaseRandomT\(hfsm2::detail::SimpleRandomT', r'BaseRandomT<4u>::seed'], 'proof_seed_int32': [r'BaseRandomT<4u>::seed'],
+ 'proof_x256plus': [r'FloatRandomT<8u>::uint64'], 'proof_x256starstar': [r'IntRandomT<8u>::uint64'],
+ 'proof_x128plus': [r'FloatRandomT<4u>::uint32'], 'proof_x128starstar': [r'IntRandomT<4u>::uint32'],
+ 'proof_jump256plus': [r'FloatRandomT<8u>::jump'], 'proof_jump256ss': [r'IntRandomT<8u>::jump'],
+ 'proof_jump128plus': [r'FloatRandomT<4u>::jump'], 'proof_jump128ss': [r'IntRandomT<4u>::jump'],
+ 'proof_uniform': [r'hfsm2::detail::uniform\(unsigned int\)', r'hfsm2::detail::uniform\(unsigned long long\)'],
+ 'proof_unit_f64': [r'FloatRandomT<8u>::float32', r'FloatRandomT<8u>::float64', r'FloatRandomT<8u>::next'], 'proof_unit_i64': [r'IntRandomT<8u>::float64'],
+ 'proof_unit_f32': [r'FloatRandomT<4u>::float32', r'FloatRandomT<4u>::uint64'], 'proof_unit_i32': [r'IntRandomT<4u>::float64'],
+ 'proof_rngt': [r'FloatRandomT<8u>::next'],
+}
+RNG_SPEC = 'contracts/random.spec'
+for entry, car in RNG_CARRIERS.items():
+    jump = 'jump' in entry
+    j = job(id='C20.' + entry[6:], tu='tier_a/random.cpp', entry=entry, props=['C20', 'C11'], unwind=(66 if '256' in entry else 34) if jump else 6,
+        objbits=8, carriers=car, timeout=300, case_key=entry[6:])
+    if 'nonzero' in entry:
+        j.update(unwind=3, backend='cvc5')     # unwinding assertion at 3 = "at most two iterations": termination for every state
+    if 'seed' in entry or entry == 'proof_rngt':
+        # modular: the seeding source is replaced by its contract (enforced in C20.dfcc.nonzero*)
+        j.update(mode='dfcc', dfcc={'contracts': RNG_SPEC, 'replace': ['nonzero64' if '64' in entry or entry == 'proof_rngt' else 'nonzero32']})
+job(id='C20.spec_is_reference', tu='tier_a/random.cpp', entry='proof_spec_is_reference', props=['C20'], unwind=3, objbits=8, backend='cvc5', timeout=300,
+    carriers=[], case_key='contract spec = reference')
+for alias, entry, repl, kw in (('raw64', 'dfcc_raw64', [], {}), ('raw32', 'dfcc_raw32', [], {}),
+                               ('nonzero64', 'dfcc_nonzero64', ['raw64'], {'unwind': 3, 'backend': 'cvc5'}),
+                               ('nonzero32', 'dfcc_nonzero32', ['raw32'], {'unwind': 3, 'backend': 'cvc5'})):
+    job(id='C20.dfcc.' + alias, tu='tier_a/random.cpp', entry=entry, props=['C20', 'C11'], objbits=8, timeout=300, mode='dfcc',
+        dfcc={'contracts': RNG_SPEC, 'enforce': [alias], 'replace': repl}, carriers=[r'SimpleRandomT<[48]u>::(raw|uint)(32|64)'],
+        case_key='contract ' + alias, **({'unwind': 6} if not kw else kw))
+job(id='C20.dfcc.uniform', tu='tier_a/random.cpp', entry='dfcc_uniform', props=['C20', 'C11'], objbits=8, timeout=300, mode='dfcc', unwind=3,
+    dfcc={'contracts': RNG_SPEC, 'enforce': ['uniform32', 'uniform64']}, carriers=[r'hfsm2::detail::uniform'], case_key='contract uniform')
+
+# ------------------------------------------------------------------ C18 bit arrays and streams
+BA_CARRIERS = [r'BitArrayT<\d+u>::get<', r'BitArrayT<\d+u>::set<', r'BitArrayT<\d+u>::clear<', r'BitArrayT<\d+u>::empty', r'BitArrayT<\d+u>::operator&=',
+               r'BitArrayT<\d+u>::operator!=', r'BitArrayT<\d+u>::Bits::operator bool', r'BitArrayT<\d+u>::CBits::operator bool', r'BitArrayT<\d+u>::bits\(', r'BitArrayT<\d+u>::Bits::clear\(\)']
+for n, tier in ((1, 'quick'), (8, 'quick'), (9, 'quick'), (17, 'quick'), (32, 'quick'), (2, 'thorough'), (7, 'thorough'), (15, 'thorough'), (16, 'thorough'),
+                (31, 'thorough'), (33, 'thorough'), (64, 'thorough'), (255, 'thorough'), (256, 'thorough'), (257, 'thorough')):
+    for entry in ('proof_ba_index', 'proof_ba_static', 'proof_ba_whole', 'proof_bits_view', 'proof_bits_static'):
+        units = (n + 7) // 8
+        job(id='C18.bitarray.n%d.%s' % (n, entry[6:]), tu='tier_a/bits.cpp', defs={'VP_N': n}, entry=entry, props=['C18', 'C11'], tier=tier,
+            unwind=8 * units + 2, objbits=8, carriers=BA_CARRIERS if entry != 'proof_ba_static' else [], timeout=600, case_key='BitArrayT<%d>' % n)
+ST_CARRIERS = [r'BitWriteStreamT<.*>::write<', r'BitReadStreamT<.*>::read<', r'StreamBufferT<.*>::operator==', r'StreamBufferT<.*>::operator!=']
+def stream_jobs(scap, w1, w2, tier):
+    defs = {'VP_SCAP': scap, 'VP_W1': w1, 'VP_W2': w2, 'VP_N': 9}
+    for entry in ('proof_sb_compare', 'proof_write_w1', 'proof_write_w2', 'proof_read_w1', 'proof_read_w2', 'proof_roundtrip'):
+        job(id='C18.stream.c%d.w%d_%d.%s' % (scap, w1, w2, entry[6:]), tu='tier_a/bits.cpp', defs=defs, entry=entry, props=['C18', 'C11'], tier=tier,
+            unwind=8 * ((scap + 7) // 8) + 2, objbits=8, carriers=ST_CARRIERS, timeout=600, case_key='Stream<%d> widths %d,%d' % (scap, w1, w2))
+stream_jobs(31, 5, 12, 'quick'); stream_jobs(70, 1, 32, 'quick'); stream_jobs(64, 8, 16, 'quick'); stream_jobs(9, 3, 6, 'quick')
+for i, (a, b) in enumerate(((2, 31), (4, 30), (7, 29), (9, 28), (10, 27), (11, 26), (13, 25), (14, 24), (15, 23), (17, 22), (18, 21), (19, 20), (32, 32))):
+    stream_jobs(70, a, b, 'thorough')
+stream_jobs(8, 1, 7, 'thorough'); stream_jobs(1, 1, 1, 'thorough') if False else None
